@@ -15,16 +15,30 @@ def is_settings_site(s):
     return any(x in s.key for x in SETTINGS_SITES)
 
 
+def out_of_scope(s):
+    """the opt-in `packet_capture` debugging feature (pcap writer) is not part of any property's anchors; its sites are
+    counted in the evidence of the thorough tier but not decided"""
+    return s.fn.startswith("gamedig::capture::")
+
+
 def run(tier, config):
     rep = Report("C01")
     c = K.crate("gamedig-lib", config)
     from . import c17
     rules = c17.rules_for(c)
-    n = K.ledger_obligations(rep, c, "C01", lambda s: not is_settings_site(s), rules=rules)
-    nl = K.loop_obligations(rep, c)
+    n = K.ledger_obligations(rep, c, "C01", lambda s: not is_settings_site(s) and not out_of_scope(s), rules=rules)
+    ss_all, _, _ = K.all_sites(c)
+    n_oos = sum(1 for s in ss_all if out_of_scope(s) and s.kind in ("assert", "call"))
+    if n_oos:
+        rep.count("out_of_scope_sites_packet_capture", n_oos)
+        rep.notes.append("%d panic sites in gamedig::capture (feature packet_capture, config %s) are outside the property's scope and not decided" % (n_oos, config))
+    nl = K.loop_obligations(rep, c, lambda f: not f["path"].startswith("gamedig::capture::"))
     g = K.callgraph(c)
     sccs = [sorted(x) for x in g.sccs()]
     sccs = [x for x in sccs if not all((c.fn(p) or {}).get("macro", "").startswith("X:") for p in x)]
+    # the capture wrappers forward each Socket method to an inner `impl Socket`; closing trait dispatch over all impls makes
+    # that look like self-recursion, which it is not (the inner type is never the wrapper itself)
+    sccs = [x for x in sccs if not all(p.startswith("gamedig::capture::") for p in x)]
     for comp in sccs:
         rep.add("recursion|" + ",".join(comp), "E2:no-recursion", False,
                 "recursive call cycle in the library (unbounded stack depth is not analysed): %s" % comp)
